@@ -10,6 +10,39 @@ use pushr::push::state::PushState;
 use std::collections::BTreeSet;
 use std::thread;
 
+/// A small program touching integer, float, vector, code, name and topology
+/// instructions, built from items (no parser, to keep Miri's work small).
+fn subject() -> String {
+    let mut iset = InstructionSet::new();
+    iset.load();
+    let mut st = PushState::new();
+    let prog = vec![
+        Item::int(2),
+        Item::int(14),
+        Item::int(36),
+        Item::float(1.5),
+        Item::instruction("LIST.NEIGHBOR*IDS".into()),
+        Item::int(7),
+        Item::int(5),
+        Item::instruction("INTEGER.*".into()),
+        Item::float(0.5),
+        Item::instruction("FLOAT.SIN".into()),
+        Item::name("x".into()),
+        Item::instruction("INTEGER.DEFINE".into()),
+        Item::name("x".into()),
+        Item::instruction("CODE.QUOTE".into()),
+        Item::list(vec![Item::int(1), Item::int(2)]),
+        Item::instruction("CODE.DUP".into()),
+        Item::instruction("CODE.LIST".into()),
+        Item::instruction("CODE.SIZE".into()),
+    ];
+    let mut rev = prog;
+    rev.reverse();
+    st.exec_stack.push(Item::list(rev));
+    let o = PushInterpreter::run(&mut st, &mut iset);
+    format!("{:?} {}", o, st.to_string())
+}
+
 fn main() {
     let args: Vec<String> = std::env::args().collect();
     let threads: usize = args.get(1).and_then(|a| a.parse().ok()).unwrap_or(3);
@@ -37,14 +70,21 @@ fn main() {
                     ids.push(st.int_stack.pop().expect("id") as usize);
                 }
             }
-            ids
+            // a RAND-free, graph-free subject on this thread as well: any unsynchronised
+            // process-wide state behind an instruction is a data race Miri reports, and the
+            // outcome must be the one a lone thread computes
+            let got = subject();
+            (ids, got)
         }));
     }
+    let solo = subject();
     let mut seen = BTreeSet::new();
     for h in handles {
-        for id in h.join().unwrap() {
+        let (ids, got) = h.join().unwrap();
+        for id in ids {
             assert!(seen.insert(id), "C14 ids: node id {} handed out twice", id);
         }
+        assert_eq!(got, solo, "C14 isolation: a subject run beside other threads differs from the lone run");
     }
     assert_eq!(seen.len(), threads * adds);
 }
